@@ -239,6 +239,24 @@ def first_cert_lines(productions, I):
     return [[21, I.s(x), 1 if x in nullable else 0] + sorted(I.s(t) for t in first[x]) for x in sorted(nts)]
 
 
+def rank_cert_lines(productions, I):
+    """productivity certificate for LR/Early.check_productive: [23; X; rank] where a nonterminal gets
+    rank k in round k if one of its productions has only terminals and nonterminals of earlier
+    rounds.  Unproductive nonterminals get no line (check_productive is then false).  Untrusted."""
+    nts = set(p.lhs for p in productions)
+    rank = {}
+    k = 0
+    while True:
+        k += 1
+        new = [p.lhs for p in productions
+               if p.lhs not in rank and all((x not in nts) or (x in rank) for x in p.rhs)]
+        if not new:
+            break
+        for x in new:
+            rank.setdefault(x, k)
+    return [[23, I.s(x), rank[x]] for x in sorted(rank)], sorted(nts - set(rank))
+
+
 def table_lines(t, slot, I, eoi, item_lines=()):
     """Lines (lists of ints) that define table `t` in `slot`."""
     body = [[1, slot, eoi, 1 if t.dflt else 0]]
@@ -1014,6 +1032,13 @@ class Bench:
         idx = [self.I.p(p) for p in productions]
         self.defs += self.I.pending_production_lines()
         return idx
+
+    def cmd_early(self, gslot, slot, productions, handler):
+        """check_early (item cores valid) and check_productive for the table in `slot` against grammar `gslot`"""
+        lines, _ = rank_cert_lines(productions, self.I)
+        for l in lines:
+            self.cmds.append((l, None))
+        self.cmds.append(([24, gslot, slot], handler))
 
     def cmd(self, line, handler):
         self.cmds.append((line, handler))
